@@ -701,14 +701,17 @@ func (m *Model) DeleteWhere(store string, cond map[string]any) Pred {
 		}
 	}
 	sort.Strings(ids)
+	// all or nothing: a failure part-way leaves the model untouched (the transaction is rolled back)
+	work := m.Clone()
 	var all []string
 	for _, id := range ids {
-		p := m.Delete(store, id)
+		p := work.Delete(store, id)
 		if p.Skip || p.Exp != ExpOK {
 			return p
 		}
-		all = append(all, m.LastDeleted...)
+		all = append(all, work.LastDeleted...)
 	}
+	*m = *work
 	m.LastDeleted = all
 	return ok()
 }
